@@ -6,6 +6,10 @@
      F id sz                          flush                       -> "F e,e,e" (entries of the new file)
      C lo up first last ids | files   compaction chosen + outputs -> "C valid outok wf <shape slice rest range closed ids> gcok is_gc accepted"
      R id sz seq | levels             reopen into given version   -> "R sub1 sub2 wf ord ts"
+     S lo up first last ids           a thread SELECTS (stays ongoing) -> "S valid noconflict cacc"
+     A pos | files                    ongoing compaction at position pos of the pending list is APPLIED now
+                                      -> "C ..." as for C, judged on the CURRENT version, + " cacc inputs_same"
+     X pos                            ongoing compaction released -> "X cacc"
      G k,k,...                        point reads                 -> "G v v v"
      V                                                            -> "V l0ids/l1ids/... wf ord"
    keys/values hex ('-' empty), entry = key.ts.val ('~' tombstone), file = id:sz:e,e  files ';' levels '/' *)
@@ -17,6 +21,7 @@ let n_of_int (i : int) : n = if i = 0 then N0 else Npos (pos_of_int i)
 let rec int_of_pos = function XH -> 1 | XO p -> 2 * int_of_pos p | XI p -> 2 * int_of_pos p + 1
 let int_of_n = function N0 -> 0 | Npos p -> int_of_pos p
 let rec nat_of_int i = if i = 0 then O else S (nat_of_int (i - 1))
+let rec int_of_nat = function O -> 0 | S n -> 1 + int_of_nat n
 (* decimal strings up to 2^64 need more than OCaml's 63-bit int: parse through Int64/unsigned *)
 let n_of_dec (s : string) : n =
   let rec go acc i = if i = String.length s then acc
@@ -56,7 +61,8 @@ let parse_levels (s : string) : file list list =
 let b x = if x then "1" else "0"
 
 let () =
-  let s = ref (init_at N0) in
+  let cs = ref (cinit_at N0) in
+  let base o = cs := cstep !cs (CBase o) in
   try
     while true do
       let line = input_line stdin in
@@ -65,27 +71,27 @@ let () =
         let cmd = line.[0] in
         let rest = String.trim (String.sub line 1 (String.length line - 1)) in
         (match cmd with
-         | 'H' -> s := init_at (n_of_dec rest); print_endline "H"
+         | 'H' -> cs := cinit_at (n_of_dec rest); print_endline "H"
          | 'W' ->
            let batch = List.map (fun kv -> match String.split_on_char '=' kv with
                | [k; v] -> (bytes_of_hex k, (if v = "~" then None else Some (bytes_of_hex v)))
                | _ -> failwith "bad kv") (split ',' rest) in
            let o = OWrite batch in
-           let acc = acceptedb !s o in
-           s := step !s o;
+           let acc = acceptedb (!cs).st o in
+           base o;
            print_endline ("W " ^ b acc)
          | 'I' ->
            (* external ingest: I id:sz:entries *)
            let f = parse_file rest in
            let o = OIngest f in
-           let acc = acceptedb !s o in
-           s := step !s o;
+           let acc = acceptedb (!cs).st o in
+           base o;
            print_endline ("I " ^ b acc)
          | 'F' ->
            (match split ' ' rest with
             | [id; sz] ->
-              let before = !s in
-              s := step !s (OFlush (n_of_dec id, n_of_dec sz));
+              let before = (!cs).st in
+              base (OFlush (n_of_dec id, n_of_dec sz));
               let es = sort_entries before.mem in
               print_endline ("F " ^ String.concat "," (List.map show_entry es))
             | _ -> failwith "bad F")
@@ -98,7 +104,7 @@ let () =
                            cfirst = bytes_of_hex fk; clast = bytes_of_hex lk;
                            cinputs = List.map n_of_dec (split ',' ids) } in
                  let outs = parse_files outs in
-                 let v = !s.ver in
+                 let v = (!cs).st.ver in
                  let valid = valid_compactionb v c in
                  let outok = outputs_okb v c outs in
                  let gcok = gc_outputs_okb v c outs in
@@ -106,13 +112,53 @@ let () =
                  (* a merge into the last level that is not the plain sorted merge is a GC step *)
                  let is_gc = (not outok) && (int_of_string up + 1 = List.length v) in
                  let o = if is_gc then OGc (c, outs) else OCompact (c, outs) in
-                 let acc = acceptedb !s o in
-                 s := step !s o;
+                 let acc = acceptedb (!cs).st o in
+                 let cacc = cacceptedb !cs (CBase o) in
+                 base o;
                  print_endline ("C " ^ b valid ^ " " ^ b outok ^ " " ^ b wf ^ " " ^ b (vc_shape v c) ^ b (vc_slice v c)
                                 ^ b (vc_rest v c) ^ b (vc_range v c) ^ b (vc_closed v c) ^ b (vc_ids v c)
-                                ^ " " ^ b gcok ^ " " ^ b is_gc ^ " " ^ b acc)
+                                ^ " " ^ b gcok ^ " " ^ b is_gc ^ " " ^ b acc ^ " " ^ b cacc)
                | _ -> failwith "bad C head")
             | _ -> failwith "bad C")
+         | 'S' ->
+           (match split ' ' rest with
+            | [lo; up; fk; lk; ids] ->
+              let c = { clower = nat_of_int (int_of_string lo); cupper = nat_of_int (int_of_string up);
+                        cfirst = bytes_of_hex fk; clast = bytes_of_hex lk;
+                        cinputs = List.map n_of_dec (split ',' ids) } in
+              let valid = valid_compactionb (!cs).st.ver c in
+              let noconf = no_conflictb (!cs).pending c in
+              let cacc = cacceptedb !cs (CSelect c) in
+              cs := cstep !cs (CSelect c);
+              print_endline ("S " ^ b valid ^ " " ^ b noconf ^ " " ^ b cacc)
+            | _ -> failwith "bad S")
+         | 'A' ->
+           (match String.split_on_char '|' rest with
+            | [pos; outs] ->
+              let i = int_of_string (String.trim pos) in
+              let outs = parse_files outs in
+              (match List.nth_opt (!cs).pending i with
+               | None -> print_endline "C 0 0 0 000000 0 0 0 0 0"
+               | Some (c, e) ->
+                 let v = (!cs).st.ver in
+                 let valid = valid_compactionb v c in
+                 let outok = outputs_okb v c outs in
+                 let gcok = gc_outputs_okb v c outs in
+                 let wf = wf_versionb (apply_compaction v c outs) in
+                 let is_gc = (not outok) && (int_of_nat c.cupper + 1 = List.length v) in
+                 let cacc = cacceptedb !cs (CApply (nat_of_int i, outs)) in
+                 (* what was read at selection time is what the current version holds under the input ids *)
+                 let same = entries_eqb (input_entries v c) e in
+                 cs := cstep !cs (CApply (nat_of_int i, outs));
+                 print_endline ("C " ^ b valid ^ " " ^ b outok ^ " " ^ b wf ^ " " ^ b (vc_shape v c) ^ b (vc_slice v c)
+                                ^ b (vc_rest v c) ^ b (vc_range v c) ^ b (vc_closed v c) ^ b (vc_ids v c)
+                                ^ " " ^ b gcok ^ " " ^ b is_gc ^ " " ^ b (valid && (outok || gcok)) ^ " " ^ b cacc ^ " " ^ b same))
+            | _ -> failwith "bad A")
+         | 'X' ->
+           let i = nat_of_int (int_of_string rest) in
+           let cacc = cacceptedb !cs (CRelease i) in
+           cs := cstep !cs (CRelease i);
+           print_endline ("X " ^ b cacc)
          | 'R' ->
            (match String.split_on_char '|' rest with
             | [hd; lv] ->
@@ -120,25 +166,25 @@ let () =
                | [id; sz; sq] ->
                  let v' = parse_levels lv in
                  let seq' = n_of_dec sq in
-                 let s1 = flush !s (n_of_dec id) (n_of_dec sz) in
+                 let s1 = flush (!cs).st (n_of_dec id) (n_of_dec sz) in
                  let sub1 = subsetb (file_entries s1.ver) (file_entries v') in
                  let sub2 = subsetb (file_entries v') (file_entries s1.ver) in
                  let wf = wf_versionb v' in
                  let s' = { mem = []; ver = v'; seq = seq' } in
                  let ord = orderedb s' in
-                 let acc = acceptedb !s (OReopen (n_of_dec id, n_of_dec sz, v', seq')) in
-                 s := step !s (OReopen (n_of_dec id, n_of_dec sz, v', seq'));
+                 let acc = acceptedb (!cs).st (OReopen (n_of_dec id, n_of_dec sz, v', seq')) in
+                 base (OReopen (n_of_dec id, n_of_dec sz, v', seq'));
                  print_endline ("R " ^ b sub1 ^ " " ^ b sub2 ^ " " ^ b wf ^ " " ^ b ord ^ " " ^ b acc)
                | _ -> failwith "bad R head")
             | _ -> failwith "bad R")
          | 'G' ->
            let ks = split ',' rest in
            print_endline ("G " ^ String.concat " " (List.map (fun k ->
-               match get !s (bytes_of_hex k) with None -> "." | Some v -> hex_of_bytes v) ks))
+               match get (!cs).st (bytes_of_hex k) with None -> "." | Some v -> hex_of_bytes v) ks))
          | 'V' ->
-           let v = !s.ver in
+           let v = (!cs).st.ver in
            print_endline ("V " ^ String.concat "/" (List.map (fun lv -> String.concat "," (List.map (fun f -> dec_of_n f.fid) lv)) v)
-                          ^ " " ^ b (wf_versionb v) ^ " " ^ b (orderedb !s))
+                          ^ " " ^ b (wf_versionb v) ^ " " ^ b (orderedb (!cs).st))
          | _ -> failwith ("bad command " ^ line));
       end
     done
